@@ -26,6 +26,11 @@ class Spec:
     def make(self, I, name):
         raise NotImplementedError
 
+    def accepts(self, v):
+        """can the actual argument v of a call be described by this kind?  (selects among several contracts of
+        one function at a call site; a kind that cannot tell says yes)"""
+        return True
+
     def __repr__(self):
         return self.label
 
@@ -35,6 +40,10 @@ class IntT(Spec):
 
     def __init__(self, lo=None, hi=None):
         self.lo, self.hi = lo, hi
+
+    def accepts(self, v):
+        V = _v()
+        return V.is_intlike(v) and not isinstance(v, (bool, V.SBool))
 
     def make(self, I, name):
         z = _z3().Int(name)
@@ -70,12 +79,18 @@ class StrT(Spec):
             return V.mk_str(chars) if chars else ""
         return V.SStr([V.Sq(z3.String(name))])
 
+    def accepts(self, v):
+        return _v().is_strlike(v)
+
 
 class NoneT(Spec):
     label = 'none'
 
     def make(self, I, name):
         return None
+
+    def accepts(self, v):
+        return v is None
 
 
 class ConstT(Spec):
@@ -116,6 +131,9 @@ class TupleT(Spec):
 
     def make(self, I, name):
         return tuple(s.make(I, f"{name}.{i}") for i, s in enumerate(self.items))
+
+    def accepts(self, v):
+        return isinstance(v, tuple) and len(v) == len(self.items) and all(s.accepts(x) for s, x in zip(self.items, v))
 
 
 class ListT(Spec):
@@ -180,6 +198,9 @@ class ObjT(Spec):
         cls = self.resolve()
         return _v().SObj(cls, {k: s.make(I, f"{name}.{k}") for k, s in self.fields.items()}, tag=name)
 
+    def accepts(self, v):
+        return isinstance(v, _v().SObj) and issubclass(v.cls, self.resolve())
+
 
 class ClassT(Spec):
     """the class object itself (for classmethods)"""
@@ -202,6 +223,9 @@ class OneOf(Spec):
         for a in self.alts:
             out.extend(a.alternatives())
         return out
+
+    def accepts(self, v):
+        return any(a.accepts(v) for a in self.alts)
 
 
 class SymCollT(Spec):
